@@ -186,7 +186,43 @@ def check_labelled_constant_dimension():
     return None
 
 
+def check_labelled_depth(nargs, kind):
+    """var_names=None with 1..4 swept arguments: the builder must recognise labelled results at every nesting depth"""
+    import itertools
+    import xarray as xr
+    names = ["p", "q", "r", "s"][:nargs]
+    combos = {nm: [1, 2] if i % 2 == 0 else [3] for i, nm in enumerate(names)}
+
+    def val(**kw):
+        return sum(v * 10 ** i for i, v in enumerate(kw[nm] for nm in names))
+
+    def as_dict(**kw):
+        return {"apples": val(**kw), "oranges": -val(**kw)}
+
+    def as_dataset(**kw):
+        return xr.Dataset({"apples": val(**kw), "oranges": -val(**kw)})
+    f = as_dict if kind == "dict" else as_dataset
+    try:
+        with quiet():
+            ds = xyz.combo_runner_to_ds(f, combos, var_names=None, verbosity=0)
+    except Exception as e:
+        return [f"{nargs} swept arguments, function returning a {kind}: {type(e).__name__}: {e}"]
+    if set(ds.data_vars) != {"apples", "oranges"}:
+        return [f"{nargs} swept arguments, function returning a {kind}: variables {list(ds.data_vars)} instead of apples, oranges"]
+    for point in itertools.product(*(combos[nm] for nm in names)):
+        kw = dict(zip(names, point))
+        got = ds.sel(**kw)
+        if int(got["apples"]) != val(**kw) or int(got["oranges"]) != -val(**kw):
+            return [f"at {kw} the dataset has apples={int(got['apples'])}, oranges={int(got['oranges'])}; the function returned {val(**kw)}, {-val(**kw)}"]
+    return None
+
+
 tried = 1
+for nargs, kind in ((1, "dict"), (2, "dataset"), (3, "dict"), (3, "dataset"), (4, "dict")):
+    tried += 1
+    pr = check_labelled_depth(nargs, kind)
+    if pr:
+        finish(True, input=dict(form="Dataset", outputs=f"labelled (var_names=None), function returning a {kind}", swept_arguments=nargs), observed=pr, tried=tried)
 pr = check_labelled_constant_dimension()
 if pr:
     finish(True, input=dict(form="Dataset", outputs="labelled (var_names=None)", constants="one names a dimension of the returned data, one does not"), observed=pr, tried=tried)
